@@ -12,7 +12,7 @@ independent is `GapConjecture` (Gap.lean) — validated, not proved.
 -/
 namespace Sql
 
-def sigToks (toks : List Tok) : List Tok := skelToks toks
+def gapSigToks (toks : List Tok) : List Tok := skelToks toks
 
 /-- the squeezed list with boundary `j` forced to hold a blank (`withWs`) or nothing; `k` counts the significant tokens seen so far,
 `pend` says that the current gap (after significant token `k-1`) already emitted its white space -/
@@ -34,13 +34,13 @@ def gapVariant (toks : List Tok) (j : Nat) (withWs : Bool) : List Tok := gapVari
 
 def gapVariantOK (toks : List Tok) (j : Nat) (withWs : Bool) : Bool :=
   match lex defaultCfg (tokensText (gapVariant toks j withWs)).toArray with
-  | .ok ts => decide (sigToks ts = sigToks toks) && wsRespellableAny ts
+  | .ok ts => decide (gapSigToks ts = gapSigToks toks) && wsRespellableAny ts
   | .error _ => false
 
 /-- **the certificate of boundary `j`** -/
 def gapFree (toks : List Tok) (j : Nat) : Bool := gapVariantOK toks j false && gapVariantOK toks j true
 
 def gapBits (toks : List Tok) : List Bool :=
-  (List.range ((sigToks toks).length - 1)).map (gapFree toks)
+  (List.range ((gapSigToks toks).length - 1)).map (gapFree toks)
 
 end Sql
